@@ -132,7 +132,15 @@ def check_first_chunk(ck):
     class_consts.update(class_constants(ck.repo, WEB, GZ))
     # Content types used as probes.  The property does not enumerate the compressible set (tornado's whitelist is a
     # tunable class attribute); what it does fix is that opaque, already-compressed media are not compressible.
-    PROBES = (("text/html; charset=UTF-8", True), ("image/png", False), ("application/zip", False), ("application/octet-stream; x=1", False), ("video/mp4", False))
+    PROBES = [("text/html; charset=UTF-8", True), ("image/png", False), ("application/zip", False), ("application/octet-stream; x=1", False), ("video/mp4", False)]
+    # membership in the transform's own whitelist is decided on the exact media type: a type that merely starts or ends
+    # with a listed one (application/json-seq, x-application/json) is a different type and not declared compressible
+    if isinstance(whitelist, frozenset):
+        listed = sorted(w for w in whitelist if isinstance(w, str))
+        for w in listed[:3]:
+            for probe in (w + "-seq", "x-" + w):
+                if probe not in whitelist and not probe.startswith("text/"):
+                    PROBES.append((probe, False))
     len_key = "call:len(%s)" % chunk
 
     def hook(n, env):
@@ -529,6 +537,8 @@ MUTANTS = [
     ("Vary header overwritten with an unrelated value", _in(GZ + ".transform_first_chunk", replace_expr(lambda n: isinstance(n, ast.Constant) and n.value == ", Accept-Encoding", lambda n: ast.Constant(value=", Accept"))), "C29.vary"),
     ("existing Content-Encoding no longer prevents compression", _in(GZ + ".transform_first_chunk", _drop_conj("Content-Encoding")), "C29.only-when-allowed"),
     ("size rule dropped: empty finishing bodies get compressed", _in(GZ + ".transform_first_chunk", _drop_conj("MIN_LENGTH")), "C29.only-when-allowed"),
+    ("whitelist matched by prefix: application/json-seq etc. get compressed (seeded C29-adv5)", _in(GZ + "._compressible_type", replace_expr(lambda n: isinstance(n, ast.BoolOp), lambda n: parse_expr("ctype.startswith(('text/', *self.CONTENT_TYPES))"))), "C29.only-when-allowed"),
+    ("whitelist matched by substring", _in(GZ + "._compressible_type", replace_expr(lambda n: isinstance(n, ast.Compare) and "CONTENT_TYPES" in _u(n), lambda n: parse_expr("any(t in ctype for t in self.CONTENT_TYPES)"))), "C29.only-when-allowed"),
     ("content type no longer consulted", _in(GZ + ".transform_first_chunk", _drop_conj("_compressible_type")), "C29.only-when-allowed"),
     ("compression decision recomputed even if the request did not accept gzip", _in(GZ + ".transform_first_chunk", _recompute_always), "C29.only-when-allowed"),
     ("_compressible_type accepts everything", _in(GZ + "._compressible_type", replace_expr(lambda n: isinstance(n, ast.BoolOp), lambda n: ast.Constant(value=True))), "C29.only-when-allowed"),
